@@ -19,7 +19,8 @@ Inductive stmt :=
 | SSet (a : nat) (p : pos)
 | SLocGet (i : nat) (p : pos)
 | SLocSet (i : nat) (p : pos)
-| SIf (p : pos) (t e : list stmt)
+| SIf (p : pos) (t : list stmt)                 (* if t then *)
+| SIfE (p : pos) (t e : list stmt)              (* if t else e then *)
 | SCase (arms : list (list stmt * pos * list stmt)) (dflt : list stmt)
 | SUntil (b : list stmt) (p : pos)
 | SRepeat (b : list stmt)
@@ -126,11 +127,11 @@ Section Parse.
                 match pseq f rest (enter e false) ["else"; "then"] [] false with
                 | POk tb "else" _ r1 e1 b1 =>
                   match pseq f r1 e1 ["then"] [] false with
-                  | POk eb "then" _ r2 e2 b2 => pseq f r2 (leave e e2) terms (SIf p tb eb :: acc) (brk || b1 || b2)
+                  | POk eb "then" _ r2 e2 b2 => pseq f r2 (leave e e2) terms (SIfE p tb eb :: acc) (brk || b1 || b2)
                   | POk _ _ _ _ _ _ => PErr EFlow
                   | x => x
                   end
-                | POk tb "then" _ r1 e1 b1 => pseq f r1 (leave e e1) terms (SIf p tb [] :: acc) (brk || b1)
+                | POk tb "then" _ r1 e1 b1 => pseq f r1 (leave e e1) terms (SIf p tb :: acc) (brk || b1)
                 | POk _ _ _ _ _ _ => PErr EFlow
                 | x => x
                 end
@@ -311,7 +312,9 @@ Section Eval.
             | other => other
             end)
         end
-      | SIf p t e =>
+      | SIf p t =>
+        run_m (let* c := pop_data in m_cond c) p s (fun b s1 => if b then sblock f t s1 else SDone s1)
+      | SIfE p t e =>
         run_m (let* c := pop_data in m_cond c) p s (fun b s1 => if b then sblock f t s1 else sblock f e s1)
       | SUntil b p =>
         match sblock f b s with
@@ -378,6 +381,161 @@ Inductive c01res :=
 | CBuildErr (k : ekind)
 | CRun (r : sres)
 | CUnsupported.
+
+(* the parsed program of a source: (top-level statements, function bodies, number of heap cells after it) *)
+Definition parse_source (fo : fops) (parse_real : string -> option Z) (src : string) (heap0 : nat)
+  : option (list stmt * list (nat * list stmt) * nat) :=
+  let toks := lex_string src in
+  let e0 := mkpenv [] [] 0 heap0 None 0 0 in
+  match pseq fo parse_real (S (S (length toks))) toks e0 [] [] false with
+  | POk body "" _ _ e _ => Some (body, funs e, nheap e)
+  | _ => None
+  end.
+
+(* ---------- the direct (jump-resolved) compiler from the tree to bytecode ---------- *)
+(* what `break` compiles to depends on the innermost enclosing loop *)
+Inductive brk_ctx :=
+| BNone
+| BJump (target : nat)     (* begin ... repeat: jump to the cell after the closing Jump *)
+| BLoop (target : nat).    (* do ... loop: Break opcode to the cell after the Loop *)
+
+Section Layout.
+  Local Infix "+++" := (@app opcode) (at level 60, right associativity).
+  Variable faddr : nat -> nat.    (* address of a function's first instruction *)
+
+  Definition rel (from to : nat) : Z := (Z.of_nat to - Z.of_nat from)%Z.
+
+  Fixpoint size_stmt (x : stmt) : nat :=
+    let sb := fix sb (l : list stmt) : nat := match l with [] => 0 | y :: r => size_stmt y + sb r end in
+    match x with
+    | SLit _ _ | SPrim _ _ | SCall _ _ | SGet _ _ | SSet _ _ | SLocGet _ _ | SLocSet _ _ | SBreak => 1
+    | SIf _ t => 1 + sb t
+    | SIfE _ t e => 2 + sb t + sb e
+    | SCase arms d =>
+      (fix go (l : list (list stmt * pos * list stmt)) : nat :=
+         match l with
+         | [] => 0
+         | (pre, _, body) :: r => sb pre + 1 + sb body + 1 + go r
+         end) arms + sb d
+    | SUntil b _ => sb b + 1
+    | SRepeat b => sb b + 1
+    | SWhile c _ b => sb c + 1 + sb b + 1
+    | SDo _ b _ => 1 + sb b + 1
+    | SDef _ => 0      (* definitions are laid out separately; the marker itself emits nothing here *)
+    end.
+  Fixpoint size_block (l : list stmt) : nat :=
+    match l with
+    | [] => 0
+    | x :: r => size_stmt x + size_block r
+    end.
+
+  (* [org] is the address of the first emitted cell *)
+  Fixpoint lay_stmt (x : stmt) (org : nat) (bc : brk_ctx) {struct x} : list opcode :=
+    let lb := fix lb (l : list stmt) (o : nat) (bc : brk_ctx) : list opcode :=
+                match l with
+                | [] => []
+                | y :: r => lay_stmt y o bc +++ lb r (o + size_stmt y) bc
+                end in
+    match x with
+    | SLit c _ => [load_value_opcode c]
+    | SPrim w _ => [ONative w]
+    | SCall g _ => [OCall (faddr g)]
+    | SGet a _ => [OLoad a]
+    | SSet a _ => [OStore a]
+    | SLocGet i _ => [OLoadLocal i]
+    | SLocSet i _ => [OInitLocal i]
+    | SBreak =>
+      match bc with
+      | BJump t => [OJump (rel org t)]
+      | BLoop t => [OBreak (rel org t)]
+      | BNone => [ONop]
+      end
+    | SIf _ t => OJumpIfNot (Z.of_nat (1 + size_block t)) :: lb t (S org) bc
+    | SIfE _ t e =>
+      (OJumpIfNot (Z.of_nat (2 + size_block t)) :: lb t (S org) bc)
+      +++ (OJump (Z.of_nat (1 + size_block e)) :: lb e (org + 2 + size_block t) bc)
+    | SCase arms d =>
+      let total := size_stmt x in
+      (fix go (l : list (list stmt * pos * list stmt)) (o : nat) : list opcode :=
+         match l with
+         | [] => lb d o bc
+         | (pre, _, body) :: r =>
+           let o1 := o + size_block pre in
+           let o2 := S o1 + size_block body in
+           lb pre o bc +++ (OCaseOf (Z.of_nat (2 + size_block body)) :: lb body (S o1) bc)
+           +++ (OJump (rel o2 (org + total)) :: go r (S o2))
+         end) arms org
+    | SUntil b _ => lb b org BNone +++ [OJumpIfNot (- Z.of_nat (size_block b))%Z]
+    | SRepeat b =>
+      let n := size_block b in
+      lb b org (BJump (org + n + 1)) +++ [OJump (- Z.of_nat n)%Z]
+    | SWhile c _ b =>
+      let nc := size_block c in
+      let nb := size_block b in
+      let endp := org + nc + 1 + nb + 1 in
+      lb c org (BJump endp) +++ (OJumpIfNot (Z.of_nat (nb + 2)) :: lb b (org + nc + 1) (BJump endp))
+      +++ [OJump (- Z.of_nat (nc + 1 + nb))%Z]
+    | SDo _ b _ =>
+      let nb := size_block b in
+      (ODo (Z.of_nat (nb + 2)) :: lb b (S org) (BLoop (org + nb + 2))) +++ [OLoop (- Z.of_nat nb)%Z]
+    | SDef _ => []
+    end.
+  Fixpoint lay_block (l : list stmt) (org : nat) (bc : brk_ctx) : list opcode :=
+    match l with
+    | [] => []
+    | x :: r => lay_stmt x org bc +++ lay_block r (org + size_stmt x) bc
+    end.
+End Layout.
+
+(* whole programs: definitions (top level only) are laid out inline behind a jump *)
+Fixpoint nested_def (x : stmt) : bool :=
+  let nb := fix nb (l : list stmt) : bool := match l with [] => false | y :: r => nested_def y || nb r end in
+  match x with
+  | SDef _ => true
+  | SIf _ t => nb t
+  | SIfE _ t e => nb t || nb e
+  | SCase arms d =>
+    (fix go (l : list (list stmt * pos * list stmt)) : bool :=
+       match l with [] => false | (pre, _, body) :: r => nb pre || nb body || go r end) arms || nb d
+  | SUntil b _ | SRepeat b | SDo _ b _ => nb b
+  | SWhile c _ b => nb c || nb b
+  | _ => false
+  end.
+
+Section Program.
+  Variable funs : list (nat * list stmt).
+  Definition body_of (g : nat) : list stmt :=
+    match fun_body funs g with Some b => b | None => [] end.
+
+  Fixpoint def_addrs (l : list stmt) (org : nat) : list (nat * nat) :=
+    match l with
+    | [] => []
+    | SDef g :: r => (g, S org) :: def_addrs r (org + size_block (body_of g) + 2)
+    | x :: r => def_addrs r (org + size_stmt x)
+    end.
+
+  Fixpoint addr_lookup (m : list (nat * nat)) (g : nat) : nat :=
+    match m with
+    | [] => 0
+    | (k, a) :: r => if (k =? g)%nat then a else addr_lookup r g
+    end.
+
+  Fixpoint lay_top (faddr : nat -> nat) (l : list stmt) (org : nat) : list opcode :=
+    match l with
+    | [] => []
+    | SDef g :: r =>
+      let b := body_of g in
+      ((OJump (Z.of_nat (size_block b + 2)) :: lay_block faddr b (S org) BNone) ++ (ORet :: lay_top faddr r (org + size_block b + 2)))%list
+    | x :: r => (lay_stmt faddr x org BNone ++ lay_top faddr r (org + size_stmt x))%list
+    end.
+
+  Definition well_placed (l : list stmt) : bool :=
+    forallb (fun x => match x with SDef _ => true | _ => negb (nested_def x) end) l &&
+    forallb (fun gb => forallb (fun x => negb (nested_def x)) (snd gb)) funs.
+
+  Definition layout_program (l : list stmt) (org : nat) : option (list opcode) :=
+    if well_placed l then Some (lay_top (addr_lookup (def_addrs l org)) l org) else None.
+End Program.
 
 Definition seval_source (fo : fops) (parse_real : string -> option Z) (fuel : nat) (src : string) (s : state) : c01res :=
   let toks := lex_string src in
